@@ -1275,9 +1275,13 @@ func (b *beacon) ReindexExpiration(treasures []treasure.Treasure) {
 	}
 	for _, t := range treasures {
 		if t.GetExpirationTime() == 0 {
+			delete(b.treasuresByKeys, t.GetKey())
 			continue
 		}
 		b.treasuresByOrder = append(b.treasuresByOrder, t)
+		// keep the key map in step with the ordered slice: Add() decides by the key map whether a
+		// record is already indexed, and would otherwise enter a re-inserted record a second time
+		b.treasuresByKeys[t.GetKey()] = t
 	}
 	// Mirror SortByExpirationTimeAsc's comparator. We always sort
 	// ascending here because callers of SelectExpiredForPatch use the
